@@ -1,4 +1,5 @@
 import Walrus.Maps
+import Walrus.Proofs.Locals
 
 /-!
 # C19 — index maps exposed to extension code agree with the binaries
@@ -115,6 +116,18 @@ def sample : ModuleM :=
     imports := [("env", "f", .func 2)],
     funcs := [1, 1],
     code := [([], [(⟨"End", []⟩, 0)]), ([(2, "i32")], [(⟨"Nop", []⟩, 0), (⟨"LocalGet", [.ref "x" 1]⟩, 0), (⟨"Drop", []⟩, 0), (⟨"End", []⟩, 0)])] }
+
+/-- **the local index reported for a local is the slot the binary gives it**: unique, and (for a
+    non-parameter) declared in the body's local groups with the local's own type -/
+theorem emitted_local_index_exact (args : List Nat) (tyOf : Nat → String) (used : List Nat)
+    (hk : ∀ l ∈ used, knownTy (tyOf l)) (l i : Nat) (h : assoc (emitLocals args tyOf used).2 l = some i) :
+    (∀ l', assoc (emitLocals args tyOf used).2 l' = some i → l' = l) ∧
+    ((l ∈ args ∧ args[i]? = some l) ∨
+     (l ∉ args ∧ args.length ≤ i ∧ (expandLocals (emitLocals args tyOf used).1)[i - args.length]? = some (tyOf l))) := by
+  refine ⟨fun l' h' => local_map_injective args tyOf used l' l i h' h, ?_⟩
+  rcases local_index_spec args tyOf used hk l i h with h1 | ⟨h1, _, h3, _, h5⟩
+  · exact Or.inl h1
+  · exact Or.inr ⟨h1, h3, h5⟩
 
 example : (parseMaps sample).types = [0, 1, 0] ∧ (parseMaps sample).funcs = [0, 1, 2] ∧
     (parseMaps sample).locals = [(1, []), (2, [0, 1])] := by decide
